@@ -1128,6 +1128,78 @@ def predicate_implied_by(P, fn_qual, trigger_rx, arg_rx=None, arg=0):
     return r
 
 
+# ------------------------------------------------------------------------------ in-place operation (no temporary copy)
+_COPY_CALL = re.compile(r'(::clone$|::cloned$|::to_owned$|::copied$|::to_vec$|mem::take$|mem::replace$)')
+
+
+def operates_in_place(P, fn_qual, call_rx, arg, what):
+    """Every call matching call_rx in F receives as argument `arg` a `&mut` that points INTO state that outlives F (a parameter, or a
+    reference obtained from one): never a borrow of a function-local OWNED value and never something that went through
+    clone()/cloned()/to_owned(). A mutation applied to a temporary copy is lost when F returns."""
+    fn = P.fn(fn_qual)
+    body = P.body(fn)
+    rx = re.compile(call_rx)
+    r = Res()
+    calls = body.calls(lambda t: call_matches(t, rx))
+    if not calls:
+        raise AnchorMissing('`%s` has no call matching %s' % (fn_qual, call_rx))
+
+    def trace(l, seen, depth=0):
+        """-> None when fine, else a description of the copy"""
+        if l in seen or depth > 12:
+            return None
+        seen = seen | {l}
+        if 1 <= l <= body.argc:
+            return None
+        for d in body.defs.get(l, []):
+            if d[0] == 'st':
+                rv = d[1]
+                if rv['k'] == 'ref':
+                    pl = rv['pl']
+                    base_ty = body.fn['locals'][pl['l']]['ty']
+                    if '*' in pl['p'] or base_ty.startswith('&') or 1 <= pl['l'] <= body.argc:
+                        x = trace(pl['l'], seen, depth + 1)
+                        if x:
+                            return x
+                        continue
+                    # borrow of an owned local: where does that local come from?
+                    own = [dd for dd in body.defs.get(pl['l'], [])]
+                    return 'a borrow of the function-local value `%s: %s` (%s)' % (
+                        body.names.get(pl['l'], '_%d' % pl['l']), base_ty[:60], body.B[d[2]]['ln'])
+                if rv['k'] in ('use', 'cast') and rv.get('o', {}).get('k') in ('copy', 'move'):
+                    x = trace(rv['o']['pl']['l'], seen, depth + 1)
+                    if x:
+                        return x
+                if rv['k'] == 'agg':
+                    for op in rv['ops']:
+                        if op['k'] in ('copy', 'move'):
+                            x = trace(op['pl']['l'], seen, depth + 1)
+                            if x:
+                                return x
+            else:
+                t = d[1]
+                cn = callee_path(t)
+                if _COPY_CALL.search(_nogen(cn)):
+                    return 'the result of %s (%s)' % (callee_name(t), body.B[d[2]]['ln'])
+                for a in t['args'][:1]:
+                    if a['k'] in ('copy', 'move'):
+                        x = trace(a['pl']['l'], seen, depth + 1)
+                        if x:
+                            return x
+        return None
+
+    for bi, t in calls:
+        a = t['args'][arg]
+        r.site('%s @%s %s' % (fn['qual'], body.ln(bi), callee_name(t)))
+        if a['k'] not in ('copy', 'move'):
+            continue
+        x = trace(a['pl']['l'], frozenset())
+        if x:
+            r.bad('temporary-copy', 'in `%s` %s works on %s instead of the stored state: what it consumes or advances is lost when the function returns'
+                  % (fn['qual'], what, x), where=[body.ln(bi)])
+    return r
+
+
 # ------------------------------------------------------------------------------ indexed writes (`v[i] = x`)
 def indexed_writes(P, fn_qual, container_rx):
     """assignments through `IndexMut::index_mut(container, idx)`: [(block, container str, index str, value str, ln)]"""
